@@ -4,6 +4,7 @@ package main
 // and are therefore evaluated by each of them.
 
 import (
+	"go/types"
 	"golang.org/x/tools/go/ssa"
 )
 
@@ -468,4 +469,408 @@ func ruleCompletedNotRejected(e *Engine, r *Report) {
 			}
 		})
 	}
+}
+
+// ruleCampaignPredicate (C03, C07): "no committed config change is waiting to
+// be applied" may be answered (false) only when committed <= applied, where
+// applied is the index the state machine reported as applied (raft.applied),
+// not the index handed to the apply queue. The test hook field has no
+// non-test writer.
+func ruleCampaignPredicate(e *Engine, r *Report) {
+	hasCC := r.need(raftT + "hasConfigChangeToApply")
+	committed := r.needField("internal/raft", "entryLog", "committed")
+	applied := r.needField("internal/raft", "raft", "applied")
+	if hasCC == nil || committed == nil || applied == nil {
+		return
+	}
+	getApplied := e.Func(raftT + "getApplied")
+	var appliedV VM = func(v ssa.Value) bool {
+		if fieldV(applied)(v) {
+			return true
+		}
+		if getApplied != nil && e.callV(getApplied)(v) {
+			// the getter returns the field
+			return e.returnDependsOn(getApplied, isFieldLoad(applied), 0)
+		}
+		return false
+	}
+	hook := e.Field("internal/raft", "raft", "hasNotAppliedConfigChange")
+	hookWritten := false
+	if hook != nil {
+		for _, w := range e.FieldWrites(hook) {
+			if w.Kind != "init" || !isNilConst(w.Val) {
+				hookWritten = true
+			}
+		}
+	}
+	exempt := func(v ssa.Value) bool {
+		// result of calling the (test-only, never assigned) hook field
+		c, ok := stripConv(v).(*ssa.Call)
+		if !ok || hook == nil || hookWritten {
+			return false
+		}
+		return fieldV(hook)(c.Call.Value)
+	}
+	r.returnsOnlyUnder("GD-campaign-pred", fname(hasCC), hasCC, 0, false, exempt,
+		reqCmp("committed <= applied (state machine applied index)", "<=", fieldV(committed), appliedV))
+}
+
+// ruleConfirmPrefix (C01, C06): see the comment in the body.
+func ruleConfirmPrefix(e *Engine, r *Report) {
+	confirm := r.need("(*internal/raft.readIndex).confirm")
+	if confirm == nil {
+		return
+	}
+	// what is released is the prefix of the queue that ends at the
+	// confirmed request: a non-empty result is returned only where the
+	// queue element equals the confirmed ctx (requests queued after it
+	// have not been confirmed by any heartbeat round that started after
+	// they were received)
+	var ctxParam *ssa.Parameter
+	for _, p := range confirm.Params {
+		if nt, ok := p.Type().(*types.Named); ok && nt.Obj().Name() == "SystemCtx" {
+			ctxParam = p
+		}
+	}
+	if ctxParam == nil {
+		r.undecided("GD-confirm-prefix", fname(confirm), "ctx parameter not found")
+	} else {
+		forEachInstr(confirm, func(in ssa.Instruction) {
+			ret, ok := in.(*ssa.Return)
+			if !ok || isNilConst(retOperand(ret, 0)) {
+				return
+			}
+			r.guard("GD-confirm-prefix", "non-empty return of "+fname(confirm), in,
+				reqCmp("the queue element reached == the confirmed ctx", "==", anyV(), func(v ssa.Value) bool {
+					v = stripConv(v)
+					if v == ssa.Value(ctxParam) {
+						return true
+					}
+					// a by-value struct parameter may be spilled to a local and re-loaded
+					if ld, ok := v.(*ssa.UnOp); ok {
+						if al := rootAlloc(ld.X); al != nil {
+							for _, sv := range storesInto(al) {
+								if sv == ssa.Value(ctxParam) {
+									return true
+								}
+							}
+						}
+					}
+					return false
+				}))
+		})
+	}
+}
+
+// ruleReadBatchCopy (C01, C06, C12): the requests of a read batch are kept in
+// the pending table until the batch is confirmed, possibly across many step
+// cycles, while the slice handed to pendingReadIndex.add is a window into
+// readIndexQueue's double buffer, which the queue overwrites two swaps later.
+// Every value stored into readBatch.requests must therefore be a freshly
+// allocated slice (make + copy / append to a fresh slice), never a
+// parameter or a re-slice of one.
+func ruleReadBatchCopy(e *Engine, r *Report) {
+	reqsF := r.needField("", "readBatch", "requests")
+	if reqsF == nil {
+		return
+	}
+	n := 0
+	for _, fn := range e.ScopeFuncs() {
+		if !e.IsLive(fn) {
+			continue
+		}
+		forEachInstr(fn, func(in ssa.Instruction) {
+			st, ok := in.(*ssa.Store)
+			if !ok {
+				return
+			}
+			f, _, ok := fieldOfAddr(st.Addr)
+			if !ok || f != reqsF {
+				return
+			}
+			n++
+			r.check(isFreshSliceValue(st.Val, 0), "OWN-readbatch-copy", "readBatch.requests stored in "+fname(fn)+" #"+itoa(n), e.ipos(in),
+				"the batch owns a fresh copy of the request slice",
+				"readBatch.requests is assigned "+e.describeValue(st.Val)+", which is not a freshly allocated slice: the batch aliases the read-index queue's reused buffer and later reads overwrite its slots")
+		})
+	}
+	r.floor("OWN-readbatch-copy", n, 1)
+}
+
+// isFreshSliceValue: v is a slice allocated in this function (make, a slice
+// of a fresh array, nil, append onto a fresh slice / nil), i.e. it cannot
+// alias memory owned by a caller.
+func isFreshSliceValue(v ssa.Value, d int) bool {
+	if d > 6 || v == nil {
+		return false
+	}
+	switch x := v.(type) {
+	case *ssa.MakeSlice:
+		return true
+	case *ssa.Const:
+		return x.IsNil()
+	case *ssa.Slice:
+		if al, ok := x.X.(*ssa.Alloc); ok {
+			_ = al
+			return true // slice of a fresh array (make with constant size / composite literal)
+		}
+		return isFreshSliceValue(x.X, d+1)
+	case *ssa.Call:
+		if b, ok := x.Call.Value.(*ssa.Builtin); ok && b.Name() == "append" && len(x.Call.Args) > 0 {
+			return isFreshSliceValue(x.Call.Args[0], d+1)
+		}
+		return false
+	case *ssa.Phi:
+		for _, ed := range x.Edges {
+			if ed == v {
+				continue
+			}
+			if !isFreshSliceValue(ed, d+1) {
+				return false
+			}
+		}
+		return true
+	case *ssa.ChangeType:
+		return isFreshSliceValue(x.X, d+1)
+	}
+	return false
+}
+
+// ruleRestoreReplaces: fn restores state from a snapshot: before anything is
+// inserted into the table held in field fld (and before fn returns
+// normally) the table is re-created, i.e. a fresh value is stored into fld
+// on every path. Merging the snapshot into the live table keeps entries
+// that the snapshot no longer has.
+func ruleRestoreReplaces(e *Engine, r *Report, rule string, fn *ssa.Function, fld *types.Var, isInsert func(ssa.Instruction) bool) {
+	if fn == nil || fld == nil {
+		return
+	}
+	isFreshStore := func(in ssa.Instruction) bool {
+		st, ok := in.(*ssa.Store)
+		if !ok {
+			return false
+		}
+		f, _, ok := fieldOfAddr(st.Addr)
+		if !ok || f != fld {
+			return false
+		}
+		// the stored value must not derive from the old table
+		// (a load of the same field of the receiver; a field of another,
+		// freshly built object is fine)
+		return !e.dependsOn(st.Val, func(v ssa.Value) bool {
+			ff, base, ok := loadedField(v)
+			if !ok || ff != fld || len(fn.Params) == 0 {
+				return false
+			}
+			if fa, isFA := base.(*ssa.FieldAddr); isFA {
+				base = fa.X
+			}
+			return stripConv(base) == ssa.Value(fn.Params[0])
+		}, 0)
+	}
+	target := func(in ssa.Instruction) bool {
+		if isInsert != nil && isInsert(in) {
+			return true
+		}
+		return e.isSuccessReturn(in) || (errResultIndex(fn) < 0 && isReturn(in))
+	}
+	res := e.findPath(fn, nil, target, isFreshStore, nil)
+	var w []string
+	for _, x := range res.Witness {
+		w = append(w, e.ipos(x))
+	}
+	r.check(!res.Found, rule, fname(fn)+" re-creates "+fld.Name()+" before inserting/returning", e.pos(fn.Pos()),
+		"the restored table replaces the live one on every path",
+		"a path through "+fname(fn)+" inserts the snapshot's content into (or returns with) the previous "+fld.Name()+" table: entries the snapshot no longer contains survive the restore", w...)
+}
+
+// ruleMatchAck (C02, C17): the leader's record of what a follower holds
+// (remote.match) advances only on that follower's own acknowledgement (the
+// LogIndex of a ReplicateResp) or, for the leader itself, to its own last
+// index. Progress reports that are not the follower's word (snapshot status,
+// unreachable, heartbeat responses) must not move match: heartbeats carry
+// commit = min(match, committed) and the follower commits to it unchecked.
+func ruleMatchAck(e *Engine, r *Report, tbl *HandlerTable) {
+	match := r.needField("internal/raft", "remote", "match")
+	tryUpdate := r.need("(*internal/raft.remote).tryUpdate")
+	logIndex := r.needField("raftpb", "Message", "LogIndex")
+	lastIndex := r.need("(*internal/raft.entryLog).lastIndex")
+	replicaID := r.needField("internal/raft", "raft", "replicaID")
+	if match == nil || tryUpdate == nil || logIndex == nil || lastIndex == nil || replicaID == nil {
+		return
+	}
+	remoteT := e.Named("internal/raft", "remote")
+	n := 0
+	// direct stores: inside methods of remote, or the leader's own slot
+	for _, w := range e.FieldWrites(match) {
+		if w.Kind == "init" {
+			continue
+		}
+		n++
+		key := "remote.match written in " + fname(w.Fn)
+		if recv := w.Fn.Signature.Recv(); recv != nil {
+			t := recv.Type()
+			if p, ok := t.(*types.Pointer); ok {
+				t = p.Elem()
+			}
+			if remoteT != nil && types.Identical(t, remoteT) {
+				r.ok("WMC-match-ack", key+" (method of remote)", e.ipos(w.Instr), "progress bookkeeping inside remote; its callers are classified")
+				continue
+			}
+		}
+		own := e.callV(lastIndex)(w.Val)
+		g, _ := e.guardedOnAllPaths(w.Instr, reqCmp("", "==", anyV(), fieldV(replicaID)))
+		r.check(own && g, "WMC-match-ack", key+" (own slot := lastIndex)", e.ipos(w.Instr),
+			"the leader records its own last index for itself", "remote.match is written outside remote's methods with something other than the leader's own last index for its own id")
+	}
+	for _, s := range e.CallerSites(tryUpdate) {
+		n++
+		fn := s.Parent()
+		key := "tryUpdate called in " + fname(fn)
+		args := s.Common().Args
+		arg := args[len(args)-1]
+		switch {
+		case fieldV(logIndex)(arg):
+			okc := true
+			cells := e.CellsReaching(tbl, fn)
+			for _, c := range cells {
+				if c.Type != "ReplicateResp" {
+					okc = false
+				}
+			}
+			r.check(okc && len(cells) > 0, "WMC-match-ack", key+" (follower's acknowledged index)", e.ipos(s),
+				"match advances on the follower's ReplicateResp", "match is advanced from a message's LogIndex outside the ReplicateResp handler")
+		case e.callV(lastIndex)(arg):
+			// receiver: r.remotes[r.replicaID]
+			recv := args[0]
+			okr := false
+			if ld, ok := stripConv(recv).(*ssa.Lookup); ok && fieldV(replicaID)(ld.Index) {
+				okr = true
+			}
+			if ex, ok := stripConv(recv).(*ssa.Extract); ok {
+				if ld, ok := ex.Tuple.(*ssa.Lookup); ok && fieldV(replicaID)(ld.Index) {
+					okr = true
+				}
+			}
+			r.check(okr, "WMC-match-ack", key+" (own slot := lastIndex)", e.ipos(s),
+				"the leader advances its own progress to its own last index", "match of another replica is advanced to the leader's last index without an acknowledgement")
+		default:
+			r.bad("WMC-match-ack", key, e.ipos(s), "remote.match is advanced to "+e.describeValue(arg)+", which is neither the follower's acknowledged index (ReplicateResp.LogIndex) nor the leader's own last index: the leader would count/commit entries the follower never confirmed")
+		}
+	}
+	r.floor("WMC-match-ack", n, 4)
+}
+
+// ruleTanIndexState (C04, C09): see the call sites.
+func ruleTanIndexState(e *Engine, r *Report) {
+	ui := r.need("(*internal/tan.db).updateIndex")
+	stateF := r.needField("internal/tan", "nodeIndex", "state")
+	isEmptyState := e.PkgFunc("raftpb", "IsEmptyState")
+	if ui == nil || stateF == nil || isEmptyState == nil {
+		if isEmptyState == nil {
+			r.undecided("ANCHOR", "raftpb.IsEmptyState", "anchored function no longer resolves")
+		}
+		return
+	}
+	isComp := e.Func("internal/tan.isCompactionUpdate")
+	// from entry, a path to return that stores no state pointer, without
+	// crossing an edge that establishes "state is empty" or "compaction update"
+	exempt := reqAny("the update carries no state (or is a compaction marker)",
+		reqBool("", e.callV(isEmptyState), true),
+		reqBool("", func(v ssa.Value) bool { return isComp != nil && e.callV(isComp)(v) }, true))
+	res := e.pathUnless(ui, nil, isReturn, isStoreToField(stateF), exempt)
+	var w []string
+	for _, x := range res.Witness {
+		w = append(w, e.ipos(x))
+	}
+	r.check(!res.Found, "MPT-tan-index-state", "updateIndex points nodeIndex.state at every written state record", e.pos(ui.Pos()),
+		"the latest hard-state record is always the one the index refers to",
+		"a state record can be written without the index's state pointer being moved to it: after a restart an older term/vote is read back", w...)
+	// and the stored entry is the one being written (depends on pos/logNum parameters)
+	n := 0
+	forEachInstr(ui, func(in ssa.Instruction) {
+		if !isStoreToField(stateF)(in) {
+			return
+		}
+		n++
+		st := in.(*ssa.Store)
+		dep := e.dependsOn(st.Val, func(v ssa.Value) bool { p, ok := v.(*ssa.Parameter); return ok && p.Parent() == ui && (p.Name() == "pos" || p.Name() == "logNum") }, 0)
+		r.check(dep, "MPT-tan-index-state", "nodeIndex.state store #"+itoa(n)+" records the written position", e.ipos(in),
+			"the pointer is the position just written", "the state pointer no longer derives from the position/file just written")
+	})
+	r.floor("MPT-tan-index-state", n, 1)
+}
+
+// ruleTanFileInUse (C09, C10): a Tan log file may be deleted for a node
+// only if none of the node's three record kinds (entries, snapshot, state)
+// lives in it: nodeIndex.fileInUse answers false only after it compared the
+// file number with the snapshot's and the state's file.
+func ruleTanFileInUse(e *Engine, r *Report) {
+	fiu := r.need("(*internal/tan.nodeIndex).fileInUse")
+	snapF := r.needField("internal/tan", "nodeIndex", "snapshot")
+	stateF := r.needField("internal/tan", "nodeIndex", "state")
+	fnF := r.needField("internal/tan", "indexEntry", "fileNum")
+	if fiu == nil || snapF == nil || stateF == nil || fnF == nil {
+		return
+	}
+	via := func(outer *types.Var) VM {
+		return func(v ssa.Value) bool {
+			f, base, ok := loadedField(stripConv(v))
+			if !ok || f != fnF {
+				return false
+			}
+			// base is the address/value of the outer field
+			if fa, ok := base.(*ssa.FieldAddr); ok {
+				st := derefStruct(fa.X.Type())
+				return st != nil && st.Field(fa.Field) == outer
+			}
+			f2, _, ok2 := loadedField(base)
+			return ok2 && f2 == outer
+		}
+	}
+	var fnParam VM = func(v ssa.Value) bool { p, ok := stripConv(v).(*ssa.Parameter); return ok && p.Parent() == fiu }
+	r.returnsOnlyUnder("GD-tan-file-in-use", fname(fiu), fiu, 0, false, nil,
+		reqCmp("snapshot.fileNum != fn", "!=", via(snapF), fnParam),
+		reqCmp("state.fileNum != fn", "!=", via(stateF), fnParam))
+}
+
+// ruleLastBatchCache (C09): the batched entry store merges the first batch
+// of a save with the cached copy of the replica's last batch. The cache must
+// therefore be replaced whenever the batch being written is the last batch
+// of the save - with no further condition - or a later save merges with a
+// stale batch and drops entries.
+func ruleLastBatchCache(e *Engine, r *Report) {
+	rb := r.need("(*internal/logdb.batchedEntries).recordBatch")
+	setLast := r.need("(*internal/logdb.cache).setLastBatch")
+	if rb == nil || setLast == nil {
+		return
+	}
+	putM := e.Method("internal/logdb/kv", "IWriteBatch", "Put")
+	var lastParam *ssa.Parameter
+	for _, p := range rb.Params {
+		if p.Name() == "lastBatchID" {
+			lastParam = p
+		}
+	}
+	if putM == nil || lastParam == nil {
+		r.undecided("ANCHOR", "recordBatch(lastBatchID)/IWriteBatch.Put", "anchor not found")
+		return
+	}
+	isPut := func(in ssa.Instruction) bool {
+		c, ok := in.(ssa.CallInstruction)
+		return ok && e.IsMethodCall(c, putM)
+	}
+	isSet := func(in ssa.Instruction) bool {
+		c, ok := in.(*ssa.Call)
+		return ok && e.CallsTo(c, setLast)
+	}
+	exempt := reqCmp("this is not the last batch of the save", "!=", func(v ssa.Value) bool { return stripConv(v) == ssa.Value(lastParam) }, anyV())
+	res := e.pathUnless(rb, nil, isPut, isSet, exempt)
+	var w []string
+	for _, x := range res.Witness {
+		w = append(w, e.ipos(x))
+	}
+	r.check(!res.Found, "PAIR-lastbatch", "recordBatch refreshes the last-batch cache whenever it writes the last batch", e.pos(rb.Pos()),
+		"cache and store agree on the replica's last batch",
+		"the last batch of a save can be written without replacing the cached last batch: the next save merges with a stale batch", w...)
 }
